@@ -34,7 +34,7 @@ PROPS = {
         'kill_units': ['x86_code'],
         'aux': ['native_emitters_x86', 'native_moves_x86', 'native_heap_x86', 'native_prints_x86', 'native_programs_x86'],
         'level': 'proof',
-        'claim': 'Every instruction emitter of the x86-64 backend is proved, for all operand placements (registers / spill slots, every aliasing pattern the call sites allow) and all 64-bit contents, to have exactly the effect of the abstract operation on an explicit ISA model, with a full frame (everything but the named scratch locations unchanged). This is the instruction-selection layer of C06, proved without bound; whole-program simulation is not decided.',
+        'claim': 'Every instruction emitter of the x86-64 backend is proved, for all operand placements (registers / spill slots, every aliasing pattern the call sites allow) and all 64-bit contents, to have exactly the effect of the abstract operation on an explicit ISA model, with a full frame (everything but the named scratch locations unchanged). This is the instruction-selection layer of C06, proved without bound. The same run verifies the x86-64 memory primitives, parallel-move primitives, routine prologue/epilogue/argument shuffle and print sequence (contracts described under C09-C11, C13) because the property anchors those files too; whole-program simulation is not decided (bounded differential execution only).',
         'note': 'Trusted: the hand-written ISA specification, the extraction rules, the printer, Verus/Z3. Program-level composition is not decided.',
         'technique': 'contract-based deductive verification (Verus) of the extracted real emitters against an ISA specification',
         'not_decided': 'composition of the proved fragments over whole programs (labels, indirect jumps, recursion); conditional-branch control flow is specified as a taken/not-taken decision only',
@@ -45,7 +45,7 @@ PROPS = {
         'kill_units': ['a64_code'],
         'aux': ['native_emitters_a64', 'native_moves_a64', 'native_heap_a64', 'native_prints_a64', 'kani_bitkernels', 'native_programs_a64'],
         'level': 'proof',
-        'claim': 'Every instruction emitter of the AArch64 backend is proved, for all operand placements and all 64-bit contents, to have exactly the effect of the abstract operation on an explicit A64 model (including the three code paths of rem with their scratch-register clashes and, for load_immediate, the MOVZ/MOVN/MOVK synthesis of every 64-bit literal), with a full frame. Whole-program simulation is not decided.',
+        'claim': 'Every instruction emitter of the AArch64 backend is proved, for all operand placements and all 64-bit contents, to have exactly the effect of the abstract operation on an explicit A64 model (including the three code paths of rem with their scratch-register clashes and, for load_immediate, the MOVZ/MOVN/MOVK synthesis of every 64-bit literal), with a full frame. The same run verifies the AArch64 memory primitives, parallel-move primitives, routine prologue/epilogue/argument shuffle and print sequence (contracts described under C09-C11, C13). Whole-program simulation is not decided (bounded differential execution only).',
         'note': 'Trusted: the hand-written A64 specification, the extraction rules, the printer, Verus/Z3.',
         'technique': 'contract-based deductive verification (Verus) of the extracted real emitters against an ISA specification',
         'not_decided': 'composition of the proved fragments over whole programs; conditional-branch control flow is specified as a taken/not-taken decision only',
@@ -56,7 +56,7 @@ PROPS = {
         'kill_units': ['rv64_code'],
         'aux': ['native_emitters_rv', 'native_moves_rv', 'native_heap_rv', 'native_programs_rv'],
         'level': 'proof',
-        'claim': 'Every Instructions method of the RISC-V backend is proved to push instructions whose effect on an RV64 model is exactly the abstract operation (one instruction each; add_and_jump uses the scratch register X1), the variable-to-register map is 2*position + number + 4 with the capacity assertion unreachable below 14 variables, and print_i64 is unreachable for print-free programs. All three backends are proved against the same effect vocabulary (wadd/wsub/wmul/wdiv/wrem, slt/sle), which is the sense in which they agree. Whole-program simulation is not decided.',
+        'claim': 'Every Instructions method of the RISC-V backend is proved to push instructions whose effect on an RV64 model is exactly the abstract operation (one instruction each; add_and_jump uses the scratch register X1), the variable-to-register map is 2*position + number + 4 with the capacity assertion unreachable below 14 variables, and print_i64 is unreachable for print-free programs. All three backends are proved against the same effect vocabulary (wadd/wsub/wmul/wdiv/wrem, slt/sle), which is the sense in which they agree. The same run verifies the RISC-V memory and parallel-move primitives. Whole-program simulation is not decided (bounded differential execution only).',
         'note': 'Trusted: the hand-written RV64 specification (LW/SW read as 64-bit accesses as the property states), extraction rules, Verus/Z3.',
         'technique': 'contract-based deductive verification (Verus) of the extracted real emitters against an ISA specification',
         'not_decided': 'composition over whole programs; agreement with the other backends only through the shared effect specifications',
